@@ -136,6 +136,12 @@ def gen_plan(rng, index, tier):
             },
         }
         actors.append(a)
+    if nact >= 2 and rng.random() < 0.2:
+        # two actors with the same function, one class deriving from the other: only the more
+        # derived one may end up in the stack
+        k = rng.randrange(1, nact)
+        actors[k]["extends"] = actors[0]["name"]
+        actors[k]["function"] = actors[0]["function"]
     st = dict(hist_cs)
     if "cycles" in st:
         # detailed input: the simple keys stay at their defaults
@@ -355,16 +361,29 @@ def check_arithmetic(cs, hist):
 
 def check_exclusion(o, director, cfg, stack, probe_names):
     """Direct calls of interactAll*(excludedInterfaceNames=...) after the run."""
+    deferred = list(cfg["settings"].get("deferredInterfaceNames", []))
     for hook, call in (
         ("EveryNode", lambda ex: o.interactAllEveryNode(0, 0, excludedInterfaceNames=ex)),
         ("EOC", lambda ex: o.interactAllEOC(0, excludedInterfaceNames=ex)),
+        ("EOL", lambda ex: o.interactAllEOL(excludedInterfaceNames=ex)),
+        ("BOL", lambda ex: o.interactAllBOL(excludedInterfaceNames=ex)),
     ):
+        names = list(probe_names)
+        if hook in ("EOL", "BOL"):
+            names = names + ["main"]  # main's BOL/EOL open the database / clean files: not re-run after the run
         before = len(director.trace)
-        call(tuple(probe_names))
+        call(tuple(names))
         got = [e["iface"] for e in director.trace[before:] if e["hook"] == hook and e["depth"] == 0]
-        exp = [s["name"] for s in stack if s["enabled"] and s["name"] not in probe_names]
+        if hook == "BOL":
+            exp = [s["name"] for s in stack if (s["enabled"] or s["bolForce"]) and s["name"] not in names and s["name"] not in deferred]
+        else:
+            exp = [s["name"] for s in stack if s["enabled"] and s["name"] not in names]
+        if hook == "EOL":
+            exp = [n for n in exp if not next(s for s in stack if s["name"] == n)["reverseAtEOL"]] + list(
+                reversed([n for n in exp if next(s for s in stack if s["name"] == n)["reverseAtEOL"]])
+            )
         if got != exp:
-            raise OracleFailure("C15.exclusion", f"interactAll{hook}(excluded={probe_names}) called {got}, expected {exp}", {"hook": hook})
+            raise OracleFailure("C15.exclusion", f"interactAll{hook}(excluded={names}) called {got}, expected {exp}", {"hook": hook})
 
 
 def execute(plan):
@@ -380,9 +399,11 @@ def execute(plan):
         # ---------------- first life
         cs, o, infos = enginea.build_life(cfg, scratch, 0, director)
         stack = enginea.stack_of(o)
-        exp_stack = schedule.stack_order([(i[0], i[1]) for i in infos])
+        exp_stack = schedule.stack_order([(i[0], i[1], i[3], i[4]) for i in infos])
         if [s["name"] for s in stack] != exp_stack:
             raise OracleFailure("C15.stack", f"stack {[s['name'] for s in stack]} expected (sorted by ORDER) {exp_stack}", {})
+        if len(exp_stack) < len(infos):
+            probes["function_replacement_rule"] = 1
         for s in stack:
             kw = next(i[2] for i in infos if i[1] == s["name"])
             want = (kw.get("enabled", True), kw.get("bolForce", False), kw.get("reverseAtEOL", False))
